@@ -1,6 +1,6 @@
 //! C16 — communication state is decoded per SOTDMA / ITDMA rules for each type.
 
-use crate::adapter::{Config, STD};
+use crate::adapter::{configs, Config, STD};
 use crate::engine::{Ctx, Input, Rec, Tier, Verdict};
 use crate::gen::payload::{payload_inputs, LenMode};
 use crate::props::payload::{check_input, SIG_TYPE9};
@@ -129,5 +129,8 @@ pub fn run(ctx: &mut Ctx) {
 
     let n = ctx.tier.pick(20_000, 600_000);
     ctx.run_proptest("random-assignments", &STD, n, payload_inputs(RADIO_TYPES.to_vec(), LenMode::Standard, Prop::C16, 8, 0.1), check);
+    for cfg in configs().into_iter().skip(1) {
+        ctx.run_proptest("random-assignments", cfg, n / 2, payload_inputs(RADIO_TYPES.to_vec(), LenMode::Standard, Prop::C16, 8, 0.1), check);
+    }
     let _ = Tier::Quick;
 }
